@@ -105,15 +105,6 @@ Definition is_body (o : op) : bool := match o with OWrite _ | OFlush => true | _
 Definition writes (s : list op) : list bytes :=
   flat_map (fun o => match o with OWrite b => [b] | _ => [] end) s.
 
-(* a handler that sets its headers first, then starts the response in any of the three ways
-   (WriteHeader, Write, Flush), then only writes and flushes *)
-Fixpoint wb (s : list op) : bool :=
-  match s with
-  | [] => true
-  | o :: r => if is_hdr o then wb r
-              else forallb is_body r
-  end.
-
 (* ---------- net/http's response writer, as far as it matters here ---------- *)
 Inductive seg := SP (b : bytes) | SG (ws : list bytes).
 Record uw := { u_hdr : headers; u_commit : option (Z * headers); u_body : list seg (* newest first *) }.
@@ -233,6 +224,12 @@ Definition gz_write_header (code : Z) (g : gst) : gst :=
      g_gzw := true; g_active := g_active g; g_ws := g_ws g |}.
 
 Definition rf_write_header (c : gcfg) (code : Z) (g : gst) : gst :=
+  if g_rfw g then
+    (* a repeated call: the decision stands, the call is passed on *)
+    if g_should g then gz_write_header code g
+    else {| g_u := uw_commit code (g_u g); g_rfw := g_rfw g; g_should := g_should g; g_gzw := g_gzw g;
+            g_active := g_active g; g_ws := g_ws g |}
+  else
   if resp_ok c (u_hdr (g_u g)) then
     let g1 := gz_write_header code
                 {| g_u := g_u g; g_rfw := g_rfw g; g_should := g_should g; g_gzw := g_gzw g;
@@ -370,12 +367,8 @@ Definition agree_obs (head : bool) (u : uw) (o : obs) : bool :=
      match all_plain (r_segs u) with
      | Some b => beq b (o_body o)
      | None => match r_segs u with
-               | [SG ws] => match r_cl u with
-                            | [] => obeq (o_gunz o) (Some (concat ws))
-                            | _ => true   (* compressed bytes under a committed identity Content-Length
-                                             (Flush before the header): net/http truncates, not modelled *)
-                            end
-               | _ => true     (* plain and compressed bytes interleaved: order on the wire not modelled *)
+               | [SG ws] => obeq (o_gunz o) (Some (concat ws))
+               | _ => false    (* plain and compressed bytes are never mixed (C18_one_representation) *)
                end
      end).
 (* ETag: values are mtime-derived for static files, so only the relation between the two runs
